@@ -27,6 +27,7 @@ pub fn hit(label: &'static str) {
 
 mod chan;
 mod im;
+mod pins;
 mod misc;
 mod netaddr;
 mod seqs;
@@ -175,6 +176,34 @@ impl Cx {
         let n = self.n;
         self.check_n(name, n, f)
     }
+    /// Source pin.  The checks are hand translations of the stub text; a precondition that is weakened in the
+    /// stub (e.g. a dropped `requires`) is invisible to a dynamic test that only draws inputs from the domain
+    /// it was written for.  A pin states which clause the translation relies on; it fails when the stub file
+    /// no longer contains it (whitespace-insensitive), i.e. when the stub changed and the check must be re-read.
+    pub fn pin(&mut self, file: &str, item: &str, clause: &str) {
+        let name = format!("{file}::{item} (source pin)");
+        let squeeze = |t: &str| t.chars().filter(|c| !c.is_whitespace()).collect::<String>();
+        let path = prelude_dir().join(file);
+        let verdict = match std::fs::read_to_string(&path) {
+            Err(e) => Some(format!("cannot read {}: {e} (set VERIF_PRELUDE_DIR)", path.display())),
+            Ok(text) if squeeze(&text).contains(&squeeze(clause)) => None,
+            Ok(_) => Some(format!("the stub no longer contains `{clause}`: the contract changed, re-read the stub, update the check and this pin")),
+        };
+        self.contracts += 1;
+        self.cases += 1;
+        match verdict {
+            None => println!("STUB {name} cases=1 ok"),
+            Some(d) => {
+                if self.known.iter().any(|k| *k == name) {
+                    println!("STUB {name} cases=1 MISMATCH [known] {d}");
+                    self.known_hit.push((name, d));
+                } else {
+                    println!("STUB {name} cases=1 MISMATCH {d}");
+                    self.mismatches.push((name, d));
+                }
+            }
+        }
+    }
     /// The same contract text appears in several stub files: one line per file.
     pub fn check_in<F: FnMut(&mut Rng) -> R>(&mut self, files: &[&str], item: &str, mut f: F) {
         let want = std::mem::take(&mut self.want);
@@ -196,6 +225,15 @@ pub fn panics<T>(f: impl FnOnce() -> T) -> Option<String> {
                 .unwrap_or_else(|| "<non-string panic>".into()),
         ),
     }
+}
+
+/// ../specs/prelude relative to the crate (VERIF_PRELUDE_DIR overrides)
+fn prelude_dir() -> std::path::PathBuf {
+    if let Ok(d) = std::env::var("VERIF_PRELUDE_DIR") {
+        return d.into();
+    }
+    let base = std::env::var("CARGO_MANIFEST_DIR").unwrap_or_else(|_| env!("CARGO_MANIFEST_DIR").to_string());
+    std::path::Path::new(&base).join("..").join("specs").join("prelude")
 }
 
 fn json_str(s: &str) -> String {
@@ -235,6 +273,7 @@ fn main() {
     timebytes::run(&mut cx);
     chan::run(&mut cx);
     misc::run(&mut cx);
+    pins::run(&mut cx);
     let js = |v: &Vec<(String, String)>| -> String {
         v.iter().map(|(n, d)| format!("{{\"contract\": {}, \"detail\": {}}}", json_str(n), json_str(d))).collect::<Vec<_>>().join(", ")
     };
